@@ -9,7 +9,7 @@ from checks import hist, histcheck, common
 
 PROP = "C04"
 PLAIN = ["bfs", "dfs", "minp", "aseeds", "target", "blockp", "succ"]
-FUNCTIONS = ["SuccessionDiagram._expand_one_node/_ensure_node/_ensure_edge/node_successors", "expand_bfs", "expand_dfs",
+FUNCTIONS = ["space_utils.space_unique_key (AST -> z3 bit-vectors)", "SuccessionDiagram._expand_one_node/_ensure_node/_ensure_edge/node_successors", "expand_bfs", "expand_dfs",
              "expand_minimal_spaces", "expand_attractor_seeds", "expand_to_target", "expand_source_blocks(optimize_source_nodes=False)"]
 
 
@@ -65,6 +65,9 @@ def run_task(task):
     if task["params"].get("mode") == "models":
         from checks import c02_models
         return c02_models.run_task(task)
+    if task["params"].get("mode") == "keyunit":
+        from checks import c04_key_unit
+        return c04_key_unit.run_task(task)
     return histcheck.run_task(task, me)
 
 
@@ -73,6 +76,9 @@ def replay(rec):
     if rec["params"].get("mode") == "models":
         from checks import c02_models
         return c02_models.replay(rec)
+    if rec["params"].get("mode") == "keyunit":
+        from checks import c04_key_unit
+        return c04_key_unit.replay(rec)
     return histcheck.replay(rec, me)
 
 
@@ -116,6 +122,11 @@ def tasks(tier, seed, selftest=False):
     import glob
     import os
     q = tier == "quick"
+    # node identity for networks beyond the symbolic families: space_unique_key, translated from its current source, is decided
+    # injective and item-order independent over all spaces of N variables (checks/c04_key_unit.py)
+    for N in ((8, 31, 40) if q else (8, 31, 32, 40, 64, 96)):
+        T.append({"prop": PROP, "family": "-", "label": f"key-unit/N={N}", "timebox": 100 if q else 900, "seed": seed,
+                  "params": {"mode": "keyunit", "N": N}})
     mdir = os.path.join(os.environ.get("VERIF_REPO", "/repo"), "models/bbm-bnet-inputs-true")
     paths = sorted(glob.glob(os.path.join(mdir, "*.bnet")), key=os.path.getsize)
     small, mid = paths[:120], paths[120:180 if q else 210]
@@ -134,5 +145,6 @@ def main(tier, seed, t0, selftest=False):
                          bounds={"history": "quick: K=1 on U2 exhaustive, K=2 on U2 time-boxed 12 s per skeleton, K=1 on D3 time-boxed; thorough: K<=2 on U2 to exhaustion, K=3 on U2 / K=2 on D3 / K=1 on U3 time-boxed",
                                  "limits": f"-1(None)..{hist.MAXLIM}", "start nodes": f"None or any existing id <= {hist.MAXNODE}",
                                  "published models": "four canned histories (single-node expansions youngest/oldest stub first; bfs(3) + minimal-space expansion from a stub + stack-limited dfs; size-limited attractor-seed expansion + level-limited bfs; two single-node expansions + size-limited block expansion without source shortcuts) on 120 small + 60 medium models (quick) / all 210 (thorough); afterwards every expanded node: motifs are trap spaces, maximal, percolate to the child, none missing (z3 over the validated Petri net / all states); no duplicate spaces; unexpanded nodes have no successors",
+                                 "key unit": "space_unique_key injective and item-order independent over ALL spaces of an N-variable network, N in {8,31,40} (quick) / {8,31,32,40,64,96} (thorough); encoding width 4N+72 bits with a checked no-overflow bound; find_variable stubbed by its contract (index of the name)",
                                  "outside": "n>3, K>3, limits > 7 for the symbolic families; on the models only the final state of each history is decided, and the comparison with a fresh full expansion is not made"},
                          assumptions=["contract stubs of DESIGN.md §8 validated on every representative"])
